@@ -257,6 +257,29 @@ def _execute(program, stats, hist):
         try:
             shifted = h.price(dk, hedge=hedge, n_paths=n_paths, n_times=n_times, init_state=init)
         except Exception as e:
+            # same rule as for the unshifted quote: if the criterion itself cannot evaluate the shifted sample (bisect's
+            # iteration cap inside quadratic CVaR once |P&L| reaches 8 in float32), this is not a cash()/price() matter
+            unevaluable = False
+            try:
+                torch.manual_seed(op["torch_seed"])
+                with torch.no_grad():
+                    for _t in range(n_times):
+                        dk.simulate(n_paths=n_paths, init_state=init)
+                        plx = h.compute_portfolio(dk, hedge=hedge) - dk.payoff()
+                        if not bool(torch.isfinite(plx).all()):
+                            unevaluable = True
+                            break
+                        try:
+                            h.criterion(plx)
+                        except Exception:
+                            unevaluable = True
+                            break
+            except Exception:
+                unevaluable = False
+            if unevaluable:
+                stats.ambiguous_skipped += 1
+                hist.add(op="price", quoted=thash(quoted), shifted="criterion cannot evaluate the shifted sample")
+                continue
             raise Violation(ID, "op_raised", "%s[%s sample]:%s" % (site, sample_kind, type(e).__name__), dict(cfg, error=repr(e)[:300], shift=k), seq)
         stats.probe("shift_equivariance")
         stats.checks += 1
